@@ -107,6 +107,8 @@ type Case struct {
 	Front []FrontObs `json:"front,omitempty"`
 	Slow  bool       `json:"slow,omitempty"` // front stream: the last round is the accept-timeout one (10 s)
 	Names []string   `json:"names,omitempty"` // the two endpoint names of this case
+	// token stream: rounds of connects with Siding on/off under a time-varying SideToken
+	Token []TokenObs `json:"token,omitempty"`
 }
 
 // FrontObs is one round of the front stream: a live endpoint answers the dial
@@ -123,6 +125,34 @@ type FrontObs struct {
 	Notes       []Note `json:"notes"`        // before the endpoint is closed
 	NotesEnd    []Note `json:"notes_end"`
 	Hang        string `json:"hang,omitempty"`
+}
+
+// TokConn is one connection of a round of the token stream.
+type TokConn struct {
+	Siding   bool   `json:"siding"`
+	Token    string `json:"token"`             // what ServerConfig.SideToken answers while it connects: ok | error
+	Outcome  string `json:"outcome"`           // accepted (it reached the endpoint callback) | refused (ServeBack returned first)
+	Err      string `json:"err,omitempty"`     // refused: ServeBack's error
+	PrevEnd  bool   `json:"prev_ended"`        // the connection that was live before has ended by now
+	After    string `json:"after"`             // the name resolves to: this | prev | none | other
+	FrontTok string `json:"front_token"`       // what SideToken answers while the front connection is dialled
+	Front    string `json:"front"`             // the front connection made afterwards: served | closed | blocked
+	ServedBy int    `json:"served_by"`         // served: index of the connection whose Accept got it
+	After2   string `json:"after2"`            // the name after the front dial
+	Alive    bool   `json:"alive"`             // the registered client answered a Hello afterwards
+}
+
+// TokenObs is one round of the token stream: connections under one name, with
+// and without the Siding option, while the server's SideToken callback answers
+// ok or an error as scripted; after every connection has settled -- also one
+// the server refused -- the registry is read and a front connection is made.
+type TokenObs struct {
+	Round      int       `json:"round"`
+	Conns      []TokConn `json:"conns"`
+	Final      string    `json:"final"`       // the name after the last live endpoint was closed
+	FinalFront string    `json:"final_front"` // a front connection then
+	Notes      []Note    `json:"notes"`
+	Hang       string    `json:"hang,omitempty"`
 }
 
 // SilentObs is one round of the silent stream: k connections under one name
@@ -1182,6 +1212,275 @@ func runFront(c *Case) {
 	}
 }
 
+// runToken: the server's SideToken collaborator varies over time.
+func runToken(c *Case) {
+	type req struct {
+		ended chan struct{}
+		err   string
+	}
+	var mu sync.Mutex
+	var notes []Note
+	var sess int64
+	var reqs []*req
+	var tokenErr atomic.Bool
+	arrived := make(chan *sniproxy.VerifClient, 8)
+	srv := sniproxy.NewServer(&sniproxy.ServerConfig{
+		Lookup: func(domain string) (*sniproxy.Dest, error) {
+			if domain == "site.com" {
+				return &sniproxy.Dest{Name: names[0]}, nil
+			}
+			return nil, fmt.Errorf("bad domain %q", domain)
+		},
+		SideToken: func(user string) (string, error) {
+			if tokenErr.Load() {
+				return "", fmt.Errorf("token service unavailable")
+			}
+			return "tok", nil
+		},
+		OnConnect: func(user string) int64 {
+			mu.Lock()
+			defer mu.Unlock()
+			sess++
+			notes = append(notes, Note{K: "connect", N: nameIndex(user), S: sess})
+			return sess
+		},
+		OnDisconnect: func(user string, s int64) {
+			mu.Lock()
+			defer mu.Unlock()
+			notes = append(notes, Note{K: "disconnect", N: nameIndex(user), S: s})
+		},
+	})
+	srv.VerifSetEndpointCallback(func(name string, cl *sniproxy.VerifClient) { arrived <- cl })
+	ts := httptest.NewServer(aries.Func(func(ac *aries.C) error {
+		ac.User = ac.Path
+		if _, isSide := ac.Req.URL.Query()["side"]; isSide {
+			return srv.ServeBack(ac)
+		}
+		r := &req{ended: make(chan struct{})}
+		mu.Lock()
+		reqs = append(reqs, r) // (one endpoint dial is in flight at a time)
+		mu.Unlock()
+		err := srv.ServeBack(ac)
+		if err != nil {
+			r.err = err.Error()
+		}
+		close(r.ended)
+		return err
+	}))
+	defer ts.Close()
+	lis, err := net.ListenTCP("tcp", &net.TCPAddr{IP: net.IPv4(127, 0, 0, 1)})
+	if err != nil {
+		c.Crash = "listen: " + err.Error()
+		return
+	}
+	defer lis.Close()
+	fctx, fcancel := context.WithCancel(context.Background())
+	defer fcancel()
+	go srv.ServeFront(fctx, lis)
+	type served struct {
+		by   int
+		conn net.Conn
+	}
+	accepted := make(chan served, 16)
+	// front: a front connection for site.com; served | closed | blocked
+	front := func() (string, int) {
+		fc, err := net.DialTimeout("tcp", lis.Addr().String(), waitBound)
+		if err != nil {
+			return "closed", -1
+		}
+		defer fc.Close()
+		closed := make(chan struct{})
+		go func() {
+			tls.Client(fc, &tls.Config{ServerName: "site.com", InsecureSkipVerify: true}).Handshake()
+			close(closed)
+		}()
+		select {
+		case sv := <-accepted:
+			sv.conn.Close()
+			return "served", sv.by
+		case <-closed:
+			select { // (an accepted connection that the endpoint's side closed at once)
+			case sv := <-accepted:
+				sv.conn.Close()
+				return "served", sv.by
+			default:
+			}
+			return "closed", -1
+		case <-time.After(waitBound):
+			return "blocked", -1
+		}
+	}
+	type lconn struct {
+		idx    int
+		client *sniproxy.VerifClient
+		ep     *sniproxy.Endpoint
+		r      *req
+	}
+	isEnded := func(r *req) bool {
+		select {
+		case <-r.ended:
+			return true
+		default:
+			return false
+		}
+	}
+	rng := hx.NewRng(c.Seed*1000003 + uint64(c.I)*7919)
+	nreq := 0
+	for round := 0; round < c.Rounds; round++ {
+		o := TokenObs{Round: round, Conns: []TokConn{}}
+		mu.Lock()
+		notes = nil
+		mu.Unlock()
+		var script []TokConn
+		if round == 0 {
+			// a live endpoint, then a siding one while the token service is down, then a plain one
+			script = []TokConn{{Token: "ok", FrontTok: "ok"}, {Siding: true, Token: "error", FrontTok: "ok"},
+				{Token: "error", FrontTok: "error"}}
+		} else {
+			for j, k := 0, 2+rng.Intn(3); j < k; j++ {
+				t := TokConn{Siding: rng.Intn(3) > 0, Token: "ok", FrontTok: "ok"}
+				if rng.Intn(5) < 2 {
+					t.Token = "error"
+				}
+				if rng.Intn(4) == 0 {
+					t.FrontTok = "error"
+				}
+				script = append(script, t)
+			}
+		}
+		which := func(this, prev *lconn) string {
+			cl := srv.VerifLookup(names[0])
+			switch {
+			case cl == nil:
+				return "none"
+			case this != nil && cl.Same(this.client):
+				return "this"
+			case prev != nil && cl.Same(prev.client):
+				return "prev"
+			}
+			return "other"
+		}
+		var live *lconn
+		var eps []*sniproxy.Endpoint
+		for j, t := range script {
+			tokenErr.Store(t.Token == "error")
+			ep, err := sniproxy.Dial(context.Background(), &sniproxy.StaticRouter{Host: ts.Listener.Addr().String()},
+				&sniproxy.DialOption{Path: names[0], WithoutTLS: true, TunnelOptions: &sniproxy.Options{Siding: t.Siding}})
+			if err != nil {
+				o.Hang = "dial of an endpoint: " + err.Error()
+				break
+			}
+			eps = append(eps, ep)
+			go func(j int) {
+				for {
+					conn, err := ep.Accept()
+					if err != nil {
+						return
+					}
+					accepted <- served{by: j, conn: conn}
+				}
+			}(j)
+			mu.Lock()
+			var r *req
+			if nreq < len(reqs) {
+				r = reqs[nreq]
+			}
+			mu.Unlock()
+			if r == nil {
+				o.Hang = "an endpoint's request did not reach the server"
+				break
+			}
+			nreq++
+			prev := live
+			var this *lconn
+			select {
+			case cl := <-arrived:
+				t.Outcome = "accepted"
+				this = &lconn{idx: j, client: cl, ep: ep, r: r}
+			case <-r.ended:
+				select {
+				case cl := <-arrived:
+					t.Outcome = "accepted"
+					this = &lconn{idx: j, client: cl, ep: ep, r: r}
+				default:
+					t.Outcome, t.Err = "refused", r.err
+				}
+			case <-time.After(waitBound):
+				o.Hang = "an endpoint's connection neither reached the endpoint callback nor was refused"
+			}
+			if o.Hang != "" {
+				o.Conns = append(o.Conns, t)
+				break
+			}
+			if this != nil {
+				live = this
+				if prev != nil { // it was kicked
+					select {
+					case <-prev.r.ended:
+					case <-time.After(waitBound):
+						o.Hang = "ServeBack of a kicked endpoint did not return"
+					}
+				}
+			} else if prev != nil && which(nil, prev) != "prev" {
+				// a refused connection has nevertheless displaced the live endpoint
+				select {
+				case <-prev.r.ended:
+				case <-time.After(waitBound):
+				}
+			}
+			t.PrevEnd = prev == nil || isEnded(prev.r)
+			if this == nil && t.PrevEnd {
+				live = nil
+			}
+			t.After = which(this, prev)
+			if o.Hang == "" {
+				tokenErr.Store(t.FrontTok == "error")
+				t.Front, t.ServedBy = front()
+				t.After2 = which(this, prev)
+				if cl := srv.VerifLookup(names[0]); cl != nil && t.Front != "blocked" {
+					ctx, cancel := context.WithTimeout(context.Background(), waitBound)
+					msg, err := cl.Hello(ctx, "ping")
+					cancel()
+					t.Alive = err == nil && msg == "ping"
+				}
+				if t.Front == "blocked" {
+					o.Hang = "a front connection was neither served nor closed"
+				}
+			}
+			o.Conns = append(o.Conns, t)
+			if o.Hang != "" {
+				break
+			}
+		}
+		mu.Lock()
+		o.Notes = append([]Note{}, notes...)
+		mu.Unlock()
+		tokenErr.Store(false)
+		for _, ep := range eps {
+			go ep.Close()
+		}
+		if live != nil && o.Hang == "" {
+			select {
+			case <-live.r.ended:
+			case <-time.After(waitBound):
+				o.Hang = "ServeBack of the last endpoint did not return after its Close"
+			}
+		}
+		if o.Hang == "" {
+			o.Final = which(nil, nil)
+			o.FinalFront, _ = front()
+			mu.Lock()
+			o.Notes = append([]Note{}, notes...)
+			mu.Unlock()
+		}
+		c.Token = append(c.Token, o)
+		if o.Hang != "" {
+			c.Hang = "token: " + o.Hang
+			break
+		}
+	}
+}
+
 // runSilent: the old peer of a kick is unresponsive but connected.
 func runSilent(c *Case) {
 	type conn struct {
@@ -1363,6 +1662,8 @@ func runHistory(c *Case, seed uint64) {
 		runSilent(c)
 	} else if c.Stream == "front" {
 		runFront(c)
+	} else if c.Stream == "token" {
+		runToken(c)
 	} else if c.Stream == "free" {
 		runFree(c, seed+uint64(c.I))
 	} else {
@@ -1399,6 +1700,7 @@ func main() {
 	nrace := flag.Int("race", 3, "number of race histories (10 rounds each)")
 	nsilent := flag.Int("silent", 1, "number of silent-peer histories (2 rounds each)")
 	nfront := flag.Int("front", 1, "number of front-path histories (3 rounds each)")
+	ntoken := flag.Int("token", 1, "number of side-token histories (4 rounds each)")
 	slow := flag.Int("slow", 0, "1: front histories may end with the accept-timeout round (10 s)")
 	script := flag.String("script", "", "JSON file with a list of cases (stream, steps) to run instead")
 	child := flag.Bool("child", false, "child mode")
@@ -1413,14 +1715,17 @@ func main() {
 	var scripted []Case
 	if *script != "" {
 		scripted = loadScript(*script)
-		*n, *nfree, *nrace, *nsilent, *nfront = len(scripted), 0, 0, 0, 0
+		*n, *nfree, *nrace, *nsilent, *nfront, *ntoken = len(scripted), 0, 0, 0, 0, 0
 	}
-	total := *n + *nfree + *nrace + *nsilent + *nfront
+	total := *n + *nfree + *nrace + *nsilent + *nfront + *ntoken
 	gen0 := func(i int) Case {
 		if scripted != nil {
 			x := scripted[i]
 			return Case{I: i, Stream: x.Stream, Steps: x.Steps, Rounds: x.Rounds, Seed: x.Seed, Slow: x.Slow,
 				Names: x.Names}
+		}
+		if i >= *n+*nfree+*nrace+*nsilent+*nfront {
+			return Case{I: i, Stream: "token", Steps: []Step{}, Rounds: 4, Seed: *seed}
 		}
 		if i >= *n+*nfree+*nrace+*nsilent {
 			return Case{I: i, Stream: "front", Steps: []Step{}, Rounds: 3, Seed: *seed, Slow: *slow == 1}
@@ -1477,7 +1782,7 @@ func main() {
 		return
 	}
 	args := []string{"-seed", strconv.FormatUint(*seed, 10), "-n", strconv.Itoa(*n), "-free", strconv.Itoa(*nfree),
-		"-race", strconv.Itoa(*nrace), "-silent", strconv.Itoa(*nsilent), "-front", strconv.Itoa(*nfront),
+		"-race", strconv.Itoa(*nrace), "-silent", strconv.Itoa(*nsilent), "-front", strconv.Itoa(*nfront), "-token", strconv.Itoa(*ntoken),
 		"-slow", strconv.Itoa(*slow), "-deadline", strconv.FormatInt(*deadline, 10)}
 	if *script != "" {
 		args = append(args, "-script", *script)
